@@ -184,6 +184,8 @@ fn ref_board(b: &[u8]) -> Option<([u64; 6], [u64; 2])> {
 // O-C08.field.board (bounded <= 17 bytes): exactly 8 ranks of exactly 8 files, faithful decoding
 #[kani::proof]
 #[kani::unwind(19)]
+#[kani::stub(core::slice::memchr::memrchr, simple_memrchr)]
+#[kani::stub(core::slice::memchr::memchr, simple_memchr)]
 fn c08_field_board_b17() {
     let mut buf = [0u8; 17];
     let s = any_str(&mut buf);
@@ -242,7 +244,9 @@ fn stage_field(i: u8) -> u8 { match i { 0 | 2 | 3 => 0, 1 => 1, 4 | 5 => 2, 6 | 
 
 // O-C08.orchestration (bounded: records of <= 12 bytes with any number of spaces)
 #[kani::proof]
-#[kani::unwind(15)]
+#[kani::unwind(10)]
+#[kani::stub(core::slice::memchr::memrchr, simple_memrchr)]
+#[kani::stub(core::slice::memchr::memchr, simple_memchr)]
 #[kani::stub(crate::board::Board::parse_board, o_parse_board)]
 #[kani::stub(crate::board::Board::parse_side_to_move, o_parse_side)]
 #[kani::stub(crate::board::Board::board_is_valid, o_board_valid)]
@@ -256,8 +260,8 @@ fn stage_field(i: u8) -> u8 { match i { 0 | 2 | 3 => 0, 1 => 1, 4 | 5 => 2, 6 | 
 #[kani::stub(crate::board::Board::halfmove_clock_is_valid, o_half_valid)]
 #[kani::stub(crate::board::Board::parse_fullmove_number, o_parse_full)]
 #[kani::stub(crate::board::Board::fullmove_number_is_valid, o_full_valid)]
-fn c08_orchestration_b12() {
-    let mut buf = [0u8; 12];
+fn c08_orchestration_b8() {
+    let mut buf = [0u8; 8];
     let s = any_str(&mut buf);
     let shredder: bool = kani::any();
     unsafe { ORACLE = kani::any(); }
@@ -266,6 +270,7 @@ fn c08_orchestration_b12() {
     let by = s.as_bytes();
     let mut nfields = 1usize;
     let mut lens = [0usize; 13];
+    // (at most 9 fields fit into 8 bytes)
     let mut i = 0;
     while i < by.len() {
         if by[i] == b' ' { nfields += 1; } else if nfields <= 13 { lens[nfields - 1] += 1; }
@@ -296,7 +301,9 @@ fn c08_orchestration_b12() {
                 assert!(e == stage_field(first_bad));
             }
             // every present field is good: too few / too many fields are reported as such
-            let present_ok = (0..12u8).all(|st| need(st) > nfields || stage(st));
+            let mut present_ok = true;
+            let mut st = 0u8;
+            while st < 12 { if need(st) <= nfields && !stage(st) { present_ok = false; } st += 1; }
             if present_ok && nfields < 6 { assert!(e == 6); }
             if n_bad == 0 && nfields > 6 { assert!(e == 7); }
         }
@@ -353,9 +360,11 @@ fn c08_fromstr_retry() {
 
 // O-C08.field.board at fixed lengths (ASCII bytes): 13 = seven ranks of "8", 15 = eight ranks, 17
 macro_rules! board_fixed {
-    ($($name:ident: $n:expr;)*) => {$(
+    ($($name:ident: $n:expr, $u:expr;)*) => {$(
         #[kani::proof]
-        #[kani::unwind(20)]
+        #[kani::unwind($u)]
+        #[kani::stub(core::slice::memchr::memrchr, simple_memrchr)]
+        #[kani::stub(core::slice::memchr::memchr, simple_memchr)]
         fn $name() {
             let buf: [u8; $n] = kani::any();
             let mut i = 0;
@@ -374,4 +383,158 @@ macro_rules! board_fixed {
         }
     )*};
 }
-board_fixed! { c08_field_board_len13: 13; c08_field_board_len15: 15; c08_field_board_len16: 16; }
+board_fixed! { c08_field_board_len13: 13, 15; c08_field_board_len15: 15, 17; c08_field_board_len5: 5, 7; c08_field_board_len3: 3, 5; }
+
+// =====================================================================================================
+// C07 — Display for Board.  E3: inside board/parse.rs `write!` is shadowed (cfg(kani)) by `vwrite!`, which
+// appends to a ghost byte buffer instead of going through core::fmt.  Verified: everything the library
+// decides about the text (order, run-length counting, separators, castling letters, EP square, clocks).
+// Trusted: core::fmt renders `char` as itself and u8/u16/i32 as unpadded decimal (re-implemented below);
+// `{:#}` only sets Formatter::alternate().
+pub(crate) static mut OUT: [u8; 96] = [0; 96];
+pub(crate) static mut OUT_LEN: usize = 0;
+pub(crate) fn out_push(c: u8) {
+    unsafe {
+        if OUT_LEN < 96 { OUT[OUT_LEN] = c; }
+        OUT_LEN += 1;
+    }
+}
+pub(crate) trait VEmit { fn vemit(&self); }
+impl VEmit for char { fn vemit(&self) { let c = *self as u32; assert!(c < 0x80); out_push(c as u8); } }
+fn emit_dec(mut v: u32) {
+    let mut d = [0u8; 5];
+    let mut n = 0;
+    loop {
+        d[n] = b'0' + (v % 10) as u8;
+        n += 1;
+        v /= 10;
+        if v == 0 { break; }
+    }
+    while n > 0 { n -= 1; out_push(d[n]); }
+}
+impl VEmit for i32 { fn vemit(&self) { assert!(*self >= 0); emit_dec(*self as u32); } }
+impl VEmit for u8 { fn vemit(&self) { emit_dec(*self as u32); } }
+impl VEmit for u16 { fn vemit(&self) { emit_dec(*self as u32); } }
+impl VEmit for Color { fn vemit(&self) { char::from(*self).vemit(); } }
+impl VEmit for Square { fn vemit(&self) { char::from(self.file()).vemit(); char::from(self.rank()).vemit(); } }
+
+macro_rules! vwrite {
+    ($f:expr, "{}", $a:expr) => {{ let _ = &$f; $crate::board::parse::verif_parse::VEmit::vemit(&$a); core::fmt::Result::Ok(()) }};
+    ($f:expr, "/") => {{ let _ = &$f; $crate::board::parse::verif_parse::out_push(b'/'); core::fmt::Result::Ok(()) }};
+    ($f:expr, "-") => {{ let _ = &$f; $crate::board::parse::verif_parse::out_push(b'-'); core::fmt::Result::Ok(()) }};
+    ($f:expr, " -") => {{ let _ = &$f; $crate::board::parse::verif_parse::out_push(b' '); $crate::board::parse::verif_parse::out_push(b'-'); core::fmt::Result::Ok(()) }};
+    ($f:expr, " {} ", $a:expr) => {{ let _ = &$f; $crate::board::parse::verif_parse::out_push(b' '); $crate::board::parse::verif_parse::VEmit::vemit(&$a); $crate::board::parse::verif_parse::out_push(b' '); core::fmt::Result::Ok(()) }};
+    ($f:expr, " {}", $a:expr) => {{ let _ = &$f; $crate::board::parse::verif_parse::out_push(b' '); $crate::board::parse::verif_parse::VEmit::vemit(&$a); core::fmt::Result::Ok(()) }};
+    ($f:expr, " {} {}", $a:expr, $b:expr) => {{ let _ = &$f; $crate::board::parse::verif_parse::out_push(b' '); $crate::board::parse::verif_parse::VEmit::vemit(&$a); $crate::board::parse::verif_parse::out_push(b' '); $crate::board::parse::verif_parse::VEmit::vemit(&$b); core::fmt::Result::Ok(()) }};
+    // anything else (the error Display impls generated by simple_error!) goes to the real macro
+    ($($t:tt)*) => { core::write!($($t)*) };
+}
+pub(crate) use vwrite;
+
+/// reference emitter: the canonical six-field record of a position
+fn ref_fen(p: &sp::Pos, shredder: bool, out: &mut [u8; 96]) -> usize {
+    let mut n = 0usize;
+    fn push_to(out: &mut [u8; 96], c: u8, n: &mut usize) { if *n < 96 { out[*n] = c; } *n += 1; }
+    macro_rules! push { ($c:expr, $n:expr) => { push_to(out, $c, $n) }; }
+    let mut r = 8;
+    while r > 0 {
+        r -= 1;
+        let mut empty = 0u8;
+        let mut f = 0u8;
+        while f < 8 {
+            let s = r * 8 + f;
+            let pc = p.piece_at(s);
+            if p.occ() & sp::bit(s) != 0 && pc < 6 {
+                if empty > 0 { push!(b'0' + empty, &mut n); empty = 0; }
+                let l = [b'p', b'n', b'b', b'r', b'q', b'k'][pc as usize];
+                push!(if p.colors[0] & sp::bit(s) != 0 { l - 32 } else { l }, &mut n);
+            } else {
+                empty += 1;
+            }
+            f += 1;
+        }
+        if empty > 0 { push!(b'0' + empty, &mut n); }
+        if r > 0 { push!(b'/', &mut n); }
+    }
+    push!(b' ', &mut n);
+    push!(if p.stm == 0 { b'w' } else { b'b' }, &mut n);
+    push!(b' ', &mut n);
+    let mut any = false;
+    let mut c = 0usize;
+    while c < 2 {
+        let mut w = 0usize;
+        while w < 2 {
+            let file = p.castle[c][w];
+            if file < 8 {
+                let l = if shredder { b'a' + file } else if w == 0 { b'k' } else { b'q' };
+                push!(if c == 0 { l - 32 } else { l }, &mut n);
+                any = true;
+            }
+            w += 1;
+        }
+        c += 1;
+    }
+    if !any { push!(b'-', &mut n); }
+    push!(b' ', &mut n);
+    if p.ep < 8 {
+        push!(b'a' + p.ep, &mut n);
+        push!(if p.stm == 0 { b'6' } else { b'3' }, &mut n);
+    } else {
+        push!(b'-', &mut n);
+    }
+    push!(b' ', &mut n);
+    // clocks
+    fn dec(out: &mut [u8; 96], mut v: u32, n: &mut usize) {
+        let mut d = [0u8; 5];
+        let mut k = 0;
+        loop { d[k] = b'0' + (v % 10) as u8; k += 1; v /= 10; if v == 0 { break; } }
+        while k > 0 { k -= 1; if *n < 96 { out[*n] = d[k]; } *n += 1; }
+    }
+    dec(out, p.halfmove as u32, &mut n);
+    push!(b' ', &mut n);
+    dec(out, p.fullmove as u32, &mut n);
+    n
+}
+
+// O-C07.canon: the text produced for any accepted board is the canonical six-field record of its position
+// (both plain and Shredder notation)
+board_proof! {
+    #[kani::unwind(10)]
+    fn c07_display_canon() {
+        use core::fmt::Write;
+        let p = crate::board::verif_board::any_inv_pos();
+        let b = mk_board(&p);
+        let shredder: bool = kani::any();
+        unsafe { OUT_LEN = 0; }
+        let mut sink = crate::util::verif_util::Buf::<4>::new();
+        let r = if shredder { core::write!(sink, "{:#}", b) } else { core::write!(sink, "{}", b) };
+        assert!(r.is_ok());
+        let mut want = [0u8; 96];
+        let n = ref_fen(&p, shredder, &mut want);
+        unsafe {
+            assert!(OUT_LEN == n && n <= 96);
+            let i: usize = kani::any();
+            kani::assume(i < n && i < 96);
+            assert!(OUT[i] == want[i]);
+        }
+    }
+}
+
+// simple reference implementations of core's word-at-a-time byte searches (used as stubs: CBMC cannot
+// digest the alignment arithmetic of the originals); contract: index of the last / first occurrence
+pub(crate) fn simple_memrchr(x: u8, text: &[u8]) -> Option<usize> {
+    let mut i = text.len();
+    while i > 0 {
+        i -= 1;
+        if text[i] == x { return Some(i); }
+    }
+    None
+}
+pub(crate) fn simple_memchr(x: u8, text: &[u8]) -> Option<usize> {
+    let mut i = 0;
+    while i < text.len() {
+        if text[i] == x { return Some(i); }
+        i += 1;
+    }
+    None
+}
